@@ -53,7 +53,7 @@ func (s C14) Stores() []string { return []string{"storage"} }
 
 func (s C14) Init(env world.Env) mc.Model {
 	w := env.W()
-	domains := map[string]string{"V": "https://a.shared.com", "Q1": "https://b.shared.com", "Q2": "https://n.two.com", "Q3": "https://n.three.com", "Q4": "https://n.four.org", "Q5": "https://n.five.net"}
+	domains := map[string]string{"V": "https://a.shared.com:3333", "Q1": "https://b.shared.com", "Q2": "https://n.two.com:26657", "Q3": "https://n.three.com", "Q4": "https://n.four.org", "Q5": "https://n.five.net"}
 	for _, p := range []string{"V", "Q1", "Q2", "Q3", "Q4", "Q5"} {
 		mustOK(env.Deliver(storagetypes.NewMsgInitProvider(w.A(p).Bech, domains[p], 1_000_000_000, "kb")), "InitProvider")
 	}
@@ -236,7 +236,7 @@ func init() {
 		r.Rules = append(r.Rules, "for each (form size, minimum) in {(1,1),(2,1),(2,2),(3,2),(3,3),(3,0)}: BFS over request-attestation, request-report, Attest and Report by every account in {same-domain provider, 3 eligible providers, registered provider without proofs, the prover itself, unregistered proof holder} incl. repeats and never-requested forms, NextBlock (changes the shuffle); reference = set of distinct named signers per form")
 		r.Assumptions = append(r.Assumptions, "7 signers, one file, forms created at up to 3 heights", strings.TrimSpace("quorum-completes-the-form is checked as well although the statement only demands safety"))
 		for _, sm := range c14Settings {
-			r.AddExplore(C14{Size: sm[0], Min: sm[1]}, opts(tier, 9, 14, 15, 240, 30, 300))
+			r.AddExplore(C14{Size: sm[0], Min: sm[1]}, opts(tier, 12, 16, 15, 240, 30, 300))
 		}
 	}}
 	_ = sdk.ZeroInt
